@@ -87,8 +87,11 @@ class Impl(B.Impl):
                 met.append(rows)
         return jt, ja, met
 
-    def specialise(self, t, x, S, wm):
-        """Everything the property talks about, for the constant key set S (list of key indices)."""
+    def specialise(self, t, x, S, wm, pre=()):
+        """Everything the property talks about, for the constant key set S (list of key indices).
+        `pre`: want_metric flags of linearized calls made BEFORE the observed ones on the SAME objects (the
+        specialised operator, and the original): the property quantifies over call histories -- the observed
+        value/Jacobian/metric must not depend on how the operator was used before."""
         ift = self.ift
         X = self.point(x)
         op = self.op(t)
@@ -99,6 +102,9 @@ class Impl(B.Impl):
         cst, var = loc.extract_by_keys(ck), loc.extract_by_keys(vk)
         c_out, op0 = op.simplify_for_constant_input(cst)
         out = {"okeys": okeys, "dom0": list(op0.domain.keys()), "tgt_same": op0.target is op.target}
+        for pw in pre:
+            op0(ift.Linearization.make_var(var, bool(pw)))
+            op(ift.Linearization.make_partial_var(loc, ck, bool(pw)))
         v = op(loc)
         v0 = op0(var)
         out["plain"] = np.atleast_1d(v.asnumpy()).tolist()
@@ -336,9 +342,9 @@ def restrict_met(met, S):
     return out
 
 
-def direct(impl, t, x, S, wm):
+def direct(impl, t, x, S, wm, pre=()):
     """list of (check, fn, detail) failures of the property for one case."""
-    o = impl.specialise(t, x, S, wm)
+    o = impl.specialise(t, x, S, wm, pre)
     fails = []
     vkeys = [kk for kk in o["okeys"] if kk not in [B.key(k) for k in S]]
     if sorted(o["dom0"]) != sorted(vkeys) or not o["tgt_same"]:
@@ -465,8 +471,15 @@ def run_direct(inp):
     t = B.tuple_tree(inp["tree"])
     impl = Impl(inp["n"], inp["K"])
     with np.errstate(all="ignore"):
-        fails, o = direct(impl, t, inp["x"], inp["S"], bool(inp["wm"]))
-        return [(f, attribute(impl, t, inp["x"], inp["S"], bool(inp["wm"]), f[0], o)) for f in fails]
+        pre = tuple(inp.get("pre", ()))
+        fails, o = direct(impl, t, inp["x"], inp["S"], bool(inp["wm"]), pre)
+        out = [(f, attribute(impl, t, inp["x"], inp["S"], bool(inp["wm"]), f[0], o)) for f in fails]
+        if pre:
+            # a failure that appears only after earlier calls on the same object is a call-history dependence
+            base = {g[0] for g in direct(Impl(inp["n"], inp["K"]), t, inp["x"], inp["S"], bool(inp["wm"]))[0]}
+            out = [(f, (sig if f[0] in base else {"fn": "simplify_for_constant_input", "check": f[0], "history": "depends on earlier calls"}))
+                   for f, sig in out]
+        return out
 
 
 # ======================================================================================================
@@ -540,12 +553,14 @@ class C04(C.Check):
             impl = Impl(c["n"], c["K"])
             t, x = c["tree"], c["x"]
             for S in subsets(tree_keys(t)):
-                for wm in ([False] if not is_energy(t) else [False, True]):
+                # (want_metric, earlier calls on the same objects): the model is a pure function of the call
+                combos = [(False, ())] if not is_energy(t) else [(False, ()), (True, ()), (True, (False,)), (False, (True,))]
+                for wm, pre in combos:
                     try:
-                        o = impl.specialise(t, x, S, wm)
+                        o = impl.specialise(t, x, S, wm, pre)
                         for nm, chk in checks_for(t, x, c["n"], c["K"], S, wm, o):
                             checks.append(chk)
-                            meta.append((ci, S, wm, nm))
+                            meta.append((ci, S, wm, nm + ("" if not pre else " after calls with want_metric=%r" % (list(pre),))))
                     except Exception as e:
                         checks.append("false")
                         meta.append((ci, S, wm, "raised %s: %s" % (type(e).__name__, str(e)[:200])))
@@ -594,7 +609,7 @@ class C04(C.Check):
 
         for c in ctx.corpus():
             if c.get("kind") == "direct":
-                report({k: c[k] for k in ("tree", "x", "n", "K", "S", "wm")})
+                report({k: c[k] for k in ("tree", "x", "n", "K", "S", "wm", "pre") if k in c})
         # complex residuals (the Coq model is real): variable-covariance Gaussian, both keys constant in turn
         for i in range((6 if ctx.quick else 40) * budget):
             report({"what": "vcg_complex", "n": 1 + i % 3, "uff": i % 4 != 3, "wrap": ["none", "scale", "ham"][i % 3],
@@ -609,8 +624,8 @@ class C04(C.Check):
             done.add(ci)
             c = self.cases[ci]
             for S in subsets(tree_keys(c["tree"])):
-                for wm in ([False] if not is_energy(c["tree"]) else [True]):
-                    report({"tree": B.tolist(c["tree"]), "x": c["x"], "n": c["n"], "K": c["K"], "S": S, "wm": wm})
+                for wm, pre in ([(False, [])] if not is_energy(c["tree"]) else [(True, []), (True, [False]), (False, [True, False])]):
+                    report({"tree": B.tolist(c["tree"]), "x": c["x"], "n": c["n"], "K": c["K"], "S": S, "wm": wm, "pre": pre})
         # ... and random float trees over the whole pointwise table at random points
         ntrees = (20 if ctx.quick else 200) * budget
         for it in range(ntrees):
@@ -637,7 +652,7 @@ class C04(C.Check):
             if len(tree_keys(t)) < 2:
                 continue
             for S in subsets(tree_keys(t)):
-                report({"tree": B.enc(t), "x": x, "n": n, "K": K, "S": S, "wm": is_energy(t)})
+                report({"tree": B.enc(t), "x": x, "n": n, "K": K, "S": S, "wm": is_energy(t), "pre": [False] if is_energy(t) else []})
         res.coverage["impl_property_evaluations"] = nev
 
     def replay(self, ctx, rp):
